@@ -332,7 +332,11 @@ func (c *Contracts) LoadFile(path, pkg string) error {
 			}
 			callee, ord := w[2], 1
 			if i := strings.LastIndex(callee, "#"); i >= 0 {
-				fmt.Sscanf(callee[i+1:], "%d", &ord)
+				if callee[i+1:] == "*" {
+					ord = -1 // every call site of that callee (none is fine)
+				} else {
+					fmt.Sscanf(callee[i+1:], "%d", &ord)
+				}
 				callee = callee[:i]
 			}
 			cl, err := parseSpecExpr(rest(4), src)
